@@ -109,7 +109,7 @@ def restrict(base_rows, keep):
 
 
 def navigates(t):
-    return any(x[0] in ("path", "lambda") or (x[0] == "id" and x[1] in ("owner", "parts", "tags")) for x in walk(t))
+    return any(x[0] in ("path", "lambda") or (x[0] == "id" and x[1] in ("owner", "parts", "tags", "home", "region", "org", "items")) for x in walk(t))
 
 
 def needed_joins(t):
